@@ -39,6 +39,28 @@ fn main() {
                     std::process::exit(2);
                 }
             }
+            "--dump-fuzz-seeds" => {
+                // debugging aid: write the starting corpus of the libFuzzer target (selector byte included) into a directory
+                i += 1;
+                let dir = PathBuf::from(args.get(i).expect("--dump-fuzz-seeds needs a directory"));
+                std::fs::create_dir_all(&dir).expect("create directory");
+                for (k, b) in vh::props::fuzz_seed_corpus(&prop).into_iter().enumerate() {
+                    std::fs::write(dir.join(format!("valid{k}")), b).expect("write seed");
+                }
+                std::process::exit(0);
+            }
+            "--fuzz-input" => {
+                // debugging aid: judge one libFuzzer input in this (non-sanitised) process and print the case
+                i += 1;
+                let data = std::fs::read(args.get(i).expect("--fuzz-input needs a file")).expect("readable file");
+                let run = vh::props::lookup(&prop).expect("known property");
+                let started = std::time::Instant::now();
+                match vh::engine::fuzz_eval(&prop, run, &data) {
+                    None => println!("input rejected by the generator"),
+                    Some(o) => println!("campaign {} case {} -> {:?} ({:?})", o.sub, o.case, o.result.as_ref().map(|k| k.nontrivial).map_err(|f| format!("[{}] {}", f.signature, f.message)), started.elapsed()),
+                }
+                std::process::exit(0);
+            }
             other => {
                 eprintln!("unknown argument {other}");
                 std::process::exit(2);
@@ -57,7 +79,7 @@ fn main() {
     };
     start_watchdog(match tier {
         Tier::Quick => 300,
-        Tier::Thorough => 1800,
+        Tier::Thorough => 3600,
     });
     let code = drive(&prop, tier, seed, replay, run);
     std::process::exit(code);
